@@ -167,7 +167,6 @@ POST = {
 contract(
     E + "Env.swap", "C11", shards=8, params=dict(self=ENV, other=Nullable(LAYER), overlay=Union(NoneT, OVL), kwargs=LAYER), globals=SENT,
     requires={"sentinels-are-distinct": SENT_DISTINCT,
-              "no-key-given-twice": "other is None or forall_str(lambda k: not (k in other and k in kwargs))",
               "swapped-values-are-not-the-capture-sentinel": "forall_str(lambda k: implies(k in %s, %s[k] != NotImplemented))" % (L_, L_)},
     hooks={"yield": _swap_yield},
     locals={"old": LAYER},
